@@ -63,9 +63,23 @@ where
 
     fn call(&mut self, req: http::request::Parts) -> Self::Future {
         let config = self.config.clone();
-        let Some(host) = req.uri.host().map(String::from) else {
+        let Some(host) = req.uri.host() else {
             return future::TlsConnectionFuture::error(TlsConnectionError::NoDomain);
         };
+
+        // `Uri::host` keeps the brackets around an IPv6 literal, they are not part of the name.
+        let host = host
+            .strip_prefix('[')
+            .and_then(|host| host.strip_suffix(']'))
+            .unwrap_or(host);
+
+        // Only a host which can serve as a TLS server name can be connected to.
+        if rustls::pki_types::ServerName::try_from(host).is_err() {
+            return future::TlsConnectionFuture::error(TlsConnectionError::InvalidDomain(
+                host.to_owned(),
+            ));
+        }
+        let host = host.to_owned();
 
         let future = self.transport.connect(req);
 
